@@ -64,6 +64,42 @@ func c09SpawnedBody(entry string, ret ast.Type, lim runtime.CoreLimits) func(h *
 	}
 }
 
+// A thread that exceeds a limit while the host waits with VM.Wait: main starts short-lived
+// threads, then the thread that recurses too deep. Whenever a short thread finishes, the wait
+// takes it off the list of cores - a core spawned in that very moment must stay on the list,
+// or its fatal interrupt is never read and the wait reports a normal end.
+const c09WaitSource = `fn deep(n: int) -> int {
+    let a = n + 1;
+    deep(a) + 1
+}
+fn worker() {
+    deep(0);
+}
+fn short() {}
+fn main() {
+    spawn short();
+    spawn short();
+    let i = 0;
+    while i < 3 { i += 1; }
+    spawn worker();
+}
+`
+
+func c09WaitBody(lim runtime.CoreLimits) func(h *hostEnv, prog compiler.CompileOutput) {
+	return func(h *hostEnv, prog compiler.CompileOutput) {
+		vm := h.newVM(prog, lim)
+		vm.SpawnAsync(runtime.MainFn(), nil, nil, nil)
+		_, i := vm.Wait()
+		if i != nil {
+			o := Obs{}
+			classifyVM(&o, i, nil)
+			h.log("result:%s%s", o.Class, kindSuffix(o.Kind))
+			return
+		}
+		h.log("result:ok")
+	}
+}
+
 func c09SpawnedCases() []schedCase {
 	intT, strT, nullT := ast.NewIntType(sp), ast.NewStringType(sp), ast.NewNullType(sp)
 	lims := []struct {
@@ -111,5 +147,28 @@ func c09SpawnedCases() []schedCase {
 			})
 		}
 	}
+	waitLim := runtime.CoreLimits{CallStackMaxSize: 12, StackMaxSize: 200, MaxMemorySize: 4000}
+	cases = append(cases, schedCase{
+		Name:   "a thread spawned while the wait takes a finished one off its list exceeds the call depth",
+		Source: c09WaitSource + "// host: SpawnAsync(main), Wait(), limits " + limStr(waitLim) + "\n",
+		Bound:  map[string]int{"quick": 2, "thorough": 3},
+		Body:   c09WaitBody(waitLim),
+		Tags:   []string{"entry:main-with-wait", "limit:call-depth"},
+		Judge: func(o execObs) (string, string) {
+			got := ""
+			for _, ev := range o.Events {
+				if strings.HasPrefix(ev, "result:") {
+					got = ev
+				}
+			}
+			if got != "result:fatal/StackOverflow" {
+				return "SPAWNED-LIMIT:the wait reports " + got + " instead of result:fatal/StackOverflow", fmt.Sprintf("events %q", o.Events)
+			}
+			if len(o.Blocked) > 0 {
+				return "LEFT-BLOCKED:" + blockedOps(o.Blocked), fmt.Sprintf("blocked=%v", o.Blocked)
+			}
+			return "", ""
+		},
+	})
 	return cases
 }
